@@ -23,7 +23,8 @@ def lagrange(u, v):
         u = w
 
 
-def find(i, ones=True, want=4):
+def find(i, ones=True, want=4, M=None):
+    M = M if M is not None else globals()['M']
     """q in (0, 2^64) with limb i of q*M all ones (ones=True: q*M mod B in [B - W, B)) or all zero (in [0, W)), B = 2^(64(i+1)), W = 2^(64 i)"""
     B, W = 1 << (64 * (i + 1)), 1 << (64 * i)
     Mi = M % B
@@ -79,5 +80,63 @@ def main():
     return 0
 
 
+def main_mul():
+    """operands a, b < N of SM9's Barrett multiplication mod N whose quotient floor(a*b/N) is q (or q + 1: the routine's estimate may be one
+    short) where q*N has an all-ones / all-zero limb i and the subtraction a*b - q*N borrows into that limb"""
+    r = random.Random(20260930)
+    print('# operands for mod_n_mul found by tools/find_limb_quotients.py mul: floor(a*b/N) = q (or q+1) with a limb of q*N all ones / all zero')
+    for i in (1, 2, 3):
+        for ones in (True, False):
+            for q0 in find(i, ones, want=3, M=N):
+                for q in (q0, q0 - 1):
+                    prod = (q0) * N
+                    done = 0
+                    for _ in range(4000):
+                        a = min(N - 1, r.randrange(q + 1, 1 << r.randint(70, 256)))
+                        b = -(-(q * N) // a)
+                        if not (0 < b < N):
+                            continue
+                        z = a * b
+                        if z // N != q:
+                            continue
+                        low = (1 << (64 * i)) - 1
+                        if (z & low) < (prod & low) or done >= 2:
+                            print('n_mul %064x %064x' % (a, b))
+                            print('n_mul %064x %064x' % (b, a))
+                            done += 1
+                            if done >= 3:
+                                break
+    return 0
+
+
+def main_extract():
+    """signing master keys ks (for a few identities) whose extraction computes t1 = H1(ID||01) + ks with floor(t1^2 / N) = q, q*N having an
+    all-ones limb with a borrow into it: the first squaring of t1^(N-2) in mod_n_inv hits the rare borrow pattern"""
+    sys.path.insert(0, __file__.rsplit('/tools/', 1)[0])
+    from vlib import sm9py as S
+    import math
+    print('# master keys found by tools/find_limb_quotients.py extract: t1 = H1(ID||hid) + ks squares to q*N + rem with a limb of q*N all ones and a borrow into it')
+    for hidname, hid in (('sign', 1), ('enc', 3), ('exch', 2)):
+        for idb in (b'Alice', b'Bob'):
+            h1 = S.H1(idb, hid)
+            for i in (1, 2, 3):
+                for q0 in find(i, True, want=2, M=N):
+                    for q in (q0, q0 - 1):
+                        t1 = math.isqrt(q * N) + 1
+                        for dlt in range(0, 50):
+                            t = t1 + dlt
+                            if t >= N or (t * t) // N != q:
+                                break
+                            low = (1 << (64 * i)) - 1
+                            if ((t * t) & low) < ((q0 * N) & low):
+                                ks = (t - h1) % N
+                                if 1 <= ks < N:
+                                    print('s9_extract %s %064x %s' % (hidname, ks, idb.hex()))
+                                break
+    return 0
+
+
 if __name__ == '__main__':
-    sys.exit(main())
+    if len(sys.argv) > 1 and sys.argv[1] == 'extract':
+        sys.exit(main_extract())
+    sys.exit(main_mul() if len(sys.argv) > 1 and sys.argv[1] == 'mul' else main())
